@@ -130,6 +130,7 @@ enum { FR_MOVE, FR_DEST, FR_MOD };
 typedef struct { int type, ob, ok, implicit; } frame;
 static frame FR[64]; static int nFR, nested_restrict, last_script_kind, last_hb_id = -1;
 /* move_object("<name>"): the destination is loaded inside the efun, the link is made after its create() chain has finished */
+static int lco_on, lco_x, lco_k;   /* a call_out of the registry object carrying object lco_x as argument is pending */
 static int pend_on, pend_x, pend_t, pend_depth, pend_frame, shapes_on, shape_args_bad;
 
 static int in_subtree (int x, int root) { for (int g = 0; x >= 0 && g < 8; x = M[x].parent, g++) if (x == root) return 1; return 0; }
@@ -189,6 +190,11 @@ static void process_log (int op_failed) {
       if (nFR > 0) { if (!FR[nFR - 1].ok) fail_hist ("C08:illegal-move-succeeded", "move_object(\"%s\") by O%d returned normally although the mover was destructed meanwhile, the destination did not survive its create(), or it would be inside itself", obj_file[num (e, 3) ? 1 : 0], a); nFR--; }
       pend_on = 0;
       settle ();
+    }
+    else if (str_eq (w, "co-arg")) { vx_obs ("  call_out with O%ld as argument (shape %ld)", num (e, 2), num (e, 3)); lco_on = 1; lco_x = (int) num (e, 2); lco_k = (int) num (e, 3); }
+    else if (str_eq (w, "co-take")) {
+      vx_obs ("  call_out callback receives O%ld, O%ld", num (e, 2), num (e, 3));
+      for (int k = 2; k <= 3; k++) { long a = num (e, k); if (a == -2 || (a >= 0 && !live ((int) a))) fail_hist ("C08:reference-to-destructed-object-not-0", "a call_out argument that refers to a destructed object (O%ld) reaches the callback as an object", a); }
     }
     else if (str_eq (w, "present-begin")) vx_obs ("  present(\"thing\", O%ld)", num (e, 2));
     else if (str_eq (w, "present-end")) ;
@@ -507,7 +513,7 @@ static int do_tick (void) {
 
 static void set_valid_object (int v) { push_constant_string ("valid_object"); push_number (v); hx_apply (master_ob, "set_policy", 2); }
 
-enum { T_STOP, T_LOAD_A, T_LOAD_B, T_LOAD_B_VETO, T_CLONE, T_MOVE, T_DEST, T_LIVING, T_TIMERS, T_CMD, T_TICK, T_CLEANUP, T_MOVE_S, T_LOAD_VIA, T_PRESENT, T_SHAPE };
+enum { T_CO_ARG = 100, T_STOP = 0, T_LOAD_A, T_LOAD_B, T_LOAD_B_VETO, T_CLONE, T_MOVE, T_DEST, T_LIVING, T_TIMERS, T_CMD, T_TICK, T_CLEANUP, T_MOVE_S, T_LOAD_VIA, T_PRESENT, T_SHAPE };
 typedef struct { int t, x, y; } top;
 
 static void run_top (top o) {
@@ -565,9 +571,13 @@ static void run_top (top o) {
     expect_fail = -1;           /* the call may end in "bad argument": what matters is that nothing runs in / sees the destructed object */
     push_number (-1); push_number (13 | o.x << 8 | o.y << 16); failed = top_apply (LOGGER, "top", 2, desc); break;
   }
+  case T_CO_ARG:
+    snprintf (desc, sizeof desc, "call_out carrying O%d as argument (shape %d)", o.x, o.y); vx_obs ("%s", desc);
+    push_number (-1); push_number (14 | o.x << 8 | o.y << 16); failed = top_apply (LOGGER, "top", 2, desc); break;
   case T_TICK:
+    if (lco_on) expect_fail = -1;          /* (: call_other :) on an argument that has become 0 raises inside call_out() */
     snprintf (desc, sizeof desc, "tick"); vx_obs ("%s", desc);
-    ticks_done++; last_hb_id = -1; tick_err = do_tick (); failed = tick_err != 0; break;
+    ticks_done++; last_hb_id = -1; tick_err = do_tick (); failed = tick_err != 0; lco_on = 0; break;
   case T_CLEANUP:
     snprintf (desc, sizeof desc, "remove_destructed_objects"); vx_obs ("%s", desc);
     remove_destructed_objects ();
@@ -594,7 +604,8 @@ static int enabled_tops (top *v) {
   for (int t = 0; t < 2; t++) if (!live (t)) for (int k = 1; k <= 3; k++) v[n++] = (top) { T_LOAD_VIA, t, k };
   for (int x = 0; x < NOBJ; x++) if (live (x) && has_children (x)) v[n++] = (top) { T_PRESENT, x, 0 };
   if (shapes_on) for (int x = 0; x < NOBJ; x++) if (live (x)) for (int k = 0; k < 4; k++) v[n++] = (top) { T_SHAPE, x, k };
-  if (ticks_done < maxticks) { int any = 0; for (int x = 0; x < NOBJ; x++) any |= M[x].hb | M[x].co; if (any) v[n++] = (top) { T_TICK, 0, 0 }; }
+  if (shapes_on && !lco_on) for (int x = 0; x < NOBJ; x++) if (live (x)) for (int k = 0; k < 3; k++) v[n++] = (top) { T_CO_ARG, x, k };
+  if (ticks_done < maxticks) { int any = lco_on; for (int x = 0; x < NOBJ; x++) any |= M[x].hb | M[x].co; if (any) v[n++] = (top) { T_TICK, 0, 0 }; }
   if (pending_destructed) v[n++] = (top) { T_CLEANUP, 0, 0 };
   return n;
 }
@@ -602,7 +613,7 @@ static int enabled_tops (top *v) {
 /* canonical state: abstract world + what of the driver's own state decides the future
    (inventory order, sentence lists, heart-beat order, pending call_outs, sentence free list, cleanup backlog) */
 static int canon (char *b, int len, int step) {
-  int n = snprintf (b, len, "s%d c%d pd%d t%d sf%d|", step, nclone, pending_destructed, ticks_done, vw_sent_free_len ());
+  int n = snprintf (b, len, "s%d c%d pd%d t%d sf%d lco%d%d%d|", step, nclone, pending_destructed, ticks_done, vw_sent_free_len (), lco_on, lco_on ? lco_x : 0, lco_on ? lco_k : 0);
   for (int i = 0; i < NOBJ; i++) {
     n += snprintf (b + n, len - n, "%d:%d:%d%d%d%d[", M[i].st, M[i].parent, M[i].living, M[i].lname, M[i].hb, M[i].co);
     if (live (i) && OB[i]) {
